@@ -80,6 +80,23 @@ func writerTrace(w wl.Workload, reads string) (*wl.Trace, []byte) {
 		tr.Add(wl.Ev{"ev": "Retain", "n": st.N, "changed": st.Changed, "end": st.End})
 		rg := run.RangeCount(b)
 		tr.Add(wl.Ev{"ev": "Retain", "via": "range", "n": rg.N, "changed": rg.Changed, "end": rg.End})
+		// the caller supplies the memory (a buffer per call, two Messages taking turns) and keeps what it was handed
+		// (the default read only where the summary carries what an index-based read needs: elsewhere it may end with an error)
+		idxok := w.Cfg.Chunked && !w.Cfg.SkipChunkIdx && !w.Cfg.SkipRepChannels && !w.Cfg.SkipRepSchemas
+		for _, c := range w.Calls {
+			if c.Op == "chunk" || c.Op == "addschema" || c.Op == "addchannel" {
+				idxok = false // remuxing workloads may leave channels out of the summary on purpose
+			}
+		}
+		for _, scan := range []bool{true, false} {
+			if !scan && !idxok {
+				continue
+			}
+			for _, mode := range []string{"buf", "into2"} {
+				rv := run.RetainVia(b, scan, mode)
+				tr.Add(wl.Ev{"ev": "Retain", "via": fmt.Sprintf("%s-scan=%v", mode, scan), "n": rv.N, "changed": rv.Changed, "end": rv.End})
+			}
+		}
 	}
 	tr.Add(wl.Ev{"ev": "End"})
 	return tr, b
